@@ -1338,3 +1338,29 @@ Proof.
   rewrite <- ES in C. destruct C as [C1 (x & C2 & C3 & C4 & C5 & C6)]. split; [exact C1|].
   exists x. cbn [k_after incl sub_init] in *. auto.
 Qed.
+
+(* ================================================================================== *)
+(* 10. The cursor a request asks for                                                    *)
+(* ================================================================================== *)
+
+(* In SSE mode an integer Last-Event-ID decides the cursor whatever after_sequence says (unless that is
+   malformed: 400 comes first); otherwise after_sequence decides, and "now"/absent defers to the log. *)
+Theorem stream_cursor_spec : forall sse a l,
+  stream_cursor sse a l =
+  match a with
+  | PGarbage => None
+  | _ => Some (match sse, l with
+               | true, LInt n => Some n
+               | _, _ => match a with PInt n => Some n | _ => None end
+               end)
+  end.
+Proof. intros [|] [| |n|] [|m|]; reflexivity. Qed.
+
+(* a browser-style reconnect: the stream resumed through Last-Event-ID = k is the subscription after k *)
+Theorem reconnect_by_header : forall bk L tst a k, gapfree L -> a <> PGarbage ->
+  exists c, stream_cursor true a (LInt k) = Some (Some c) /\
+            resolve bk L (HRun tst) (Some c) = resolve bk L (HRun tst) (Some k).
+Proof.
+  intros bk L tst a k G Ha. exists k. split; [|reflexivity].
+  destruct a; try reflexivity. congruence.
+Qed.
